@@ -11,6 +11,7 @@ EXPLANATION = (
     "(R-C15-window) the list of retained messages replayed to a new subscription is truncated to a length derived from the subscriber's window (Outgoing::free_slots / max_outgoing_packet_count) only; "
     "(R-C15-match) read_retained_messages passes the retained map's key (a topic) as matches()'s topic argument and the subscription filter as its filter argument; "
     "(R-C15-expiry) the expiry sweep of read_retained_messages only decides what to keep: it does not store into a retained message (remaining interval) unless it re-bases the stored timestamp with it; "
+    "R-C15-match also demands that the scan of the retained table is narrowed by the topic match only (no take/skip before the filter). "
     "NOT decided: 'most recent per topic' over publish histories; the retain flag on the wire (C04).")
 ASSUMPTIONS = ["rustc MIR construction is correct"]
 TECHNIQUE = "static analysis: edge-restricted dominance and must-pass rules, provenance, sibling agreement"
